@@ -31,6 +31,7 @@ RULE = (
     "(`extend scalar String @ts(n:k)`) that must govern the String leaves of an introspection selection. Distinct = SHA-1 of (placement, request); non-trivial = some element carries >= 2 directives and the "
     "request involves >= 3 stages."
     " Half of the worlds complete lists sequentially; field bes: [E!] resolves to [A, null, B]: the list is nulled and reported, and every item - also after the null - went through its hooks exactly once."
+    " Input objects carry explicit nulls at In.s and among the items of In.l (15-20%): a nested null is governed by the hooks of its type and input field on the literal and the variable route alike."
 )
 ASSUMPTIONS = ["relative order of enum-value vs enum-type hooks is not asserted (statement leaves it open); each must run exactly once, each group in declaration order"]
 DNAMES = ["t1", "t2", "t3"]
